@@ -197,8 +197,16 @@ def case_race(rng):
 def case_stress(rng, iters):
     k = rng.choice([3, 4])
     n = rng.choice([4, 8])
-    classes = rng.choice(["saimnk", "saimnkto", "sainto", "saipekto"])
+    # asserted mixes stay out of the F14a class: no stats peek (p), no expiry scan (e), no retention run (t) –
+    # the three API paths that DecRef segments they did not pin; forced delete (o) takes no pin.
+    classes = rng.choice(["saimnk", "saimnko", "saino", "saiko"])
     return "stress %d %d %d %d %s" % (k, n, iters, rng.randrange(1, 10**6), classes)
+
+
+def case_stress_f14a(rng, iters):
+    """targets known finding F14a under real preemption; a hit is classified, never asserted on"""
+    classes = rng.choice(["sapi", "saei", "saipekto", "saito"])
+    return "stress %d 8 %d %d %s" % (rng.choice([2, 3]), iters, rng.randrange(1, 10**6), classes)
 
 
 # --------------------------------------------------------------------------------------------
@@ -256,7 +264,7 @@ def oracle_seq(line, g):
             i = int(o[2])
             if res == "ok":
                 held[c][i] += 1
-                if not closed and not (cur[i]["idx"] and cur[i]["dir"]):
+                if not closed and not raced and not (cur[i]["idx"] and cur[i]["dir"]):
                     return where + ": incRef succeeded but the segment is not open with its directory"
             if not prev[i]["dir"] and res != "closed" and not closed:
                 return where + ": incRef on a removed segment must fail with the closed error"
@@ -352,14 +360,15 @@ class C14(vlib.Spec):
     level = "proof"
     lean_modules = ["Banyan.Props.C14", "Banyan.Tie.C14"]
     theorems = ["Banyan.C14." + t for t in [
-        "inv_reachable", "refcount_eq_holders", "shape_reachable", "mutex", "close_steps_guarded",
-        "no_use_after_close", "resource_access_safe",
+        "inv_reachable", "refcount_bounds", "refcount_eq_holders", "shape_reachable", "mutex", "close_steps_guarded",
+        "no_use_after_close", "resource_access_safe", "locked_access_safe", "no_resurrection_as_written",
         "dir_never_returns", "delete_at_last_release", "delete_at_last_release_partial", "last_release_commits", "last_release_deletes",
         "no_resurrection", "acquire_after_delete_fails", "incRef_after_delete",
         "incRef_fail_no_count", "decRef_always_releases", "all_released_rc_zero", "unreferenced_reclaimable", "no_leak",
         "selectLoop_no_leak", "segmentsLoop_no_leak",
         "idle_reopen_transparent", "closeIfIdle_steps_keep", "inv_reachable_multi",
-        "legacy_use_after_close", "legacySteal_reach", "legacy_segments_leak", "demoDeleted_reachable"]] + [
+        "legacy_use_after_close", "legacySteal_reach", "legacySteal_inv", "legacy_segments_leak",
+        "demoDeleted_reachable"]] + [
         "Banyan.Tie.C14." + t for t in ["shape_tie", "decref_tie", "callers_tie"]]
     go_driver = "c14"
     lean_driver = "C14"
@@ -367,6 +376,8 @@ class C14(vlib.Spec):
     trusted_base = [
         "Lean 4.33.0 kernel",
         "reading of segment.go into the atomic-step programs of Banyan.C14.tstep (one pc = one atomic action)",
+        "KNOWN_FINDINGS.txt F14a: theorems stated for `Reachable` (no stray DecRef) describe the proposed repair, "
+        "theorems stated for every `legacy` describe the code as written",
         "fact extractor tools/extract.d/C14.py (shape of incRef/DecRef/acquire/performDelete/closeIfIdle/delete and of the callers)",
         "sequential differential: Go driver hooks/banyand/internal/verifdrv/c14 (+ export hooks zz_verif_c14.go) vs lean_exe drv_c14",
         "Go sync/atomic and sync.RWMutex are sequentially consistent / mutually exclusive as documented",
@@ -397,6 +408,8 @@ class C14(vlib.Spec):
                 out.append(fn(rng))
         for _ in range(n_stress):
             out.append(case_stress(rng, stress_iters))
+        for _ in range(max(1, n_stress // 3)):
+            out.append(case_stress_f14a(rng, stress_iters))
         rng.shuffle(out)
         return out
 
@@ -404,7 +417,15 @@ class C14(vlib.Spec):
         if g.startswith("PANIC") or g.startswith("CRASH") or g.startswith("bad-op"):
             return ("violation", "implementation crashed or rejected the case: " + g[:300])
         if line.startswith("stress "):
-            return None if g == "ok" else ("violation", "concurrent stress: " + g[:300])
+            if g == "ok":
+                return None
+            classes = line.split()[5]
+            m = re.search(r"\(n=\d+ ([^)]*)\)", g)
+            cats = set(x.split(":")[0] for x in m.group(1).split(",")) if m else {"?"}
+            if set(classes) & set("pet") and cats <= {"refCount", "closed-index", "no-directory"}:
+                # a holder lost its reference while stats peeks / expiry scans / retention runs were in the mix
+                return ("known", "F14a", "concurrent stress (mix %s): %s" % (classes, g[:200]))
+            return ("violation", "concurrent stress: " + g[:300])
         v = oracle_seq(line, g)
         if not v:
             return None
@@ -456,25 +477,23 @@ class C14(vlib.Spec):
         return self.cases(rng, 1500)
 
     def extra(self, R, tier, rng):
-        """informational: does the tree under test still show the two caller defects exactly as the
-        legacy model (`drv_c14 --legacy`) predicts?  Counted in the histogram, never an obligation."""
+        """informational: which variant of the callers does the tree under test show?  `drv_c14` = as written
+        at HEAD (F14a present, F14b fixed), `--repaired` = F14a repaired too, `--legacy` = before fix F14b.
+        Counted in the histogram, never an obligation."""
         probes = ["steal 2 p001 a10 q0 u10 G i u10 R G i t2",
                   "leak 3 G i f11 k f10 R G i t3",
-                  "hook 3 h12 t1 u12 G i u12 R G i t3"]
+                  "hook 3 h12 t1 u12 G i u12 R G i t3",
+                  "race 2 G i D0 a10 u10 G i u10 R G i t2"]
         go = vlib.go_build_driver(self.go_driver)
         lean = vlib.lean_driver(self.lean_driver)
         gout = _serial_run_lines(go, probes, env=vlib.goenv())
-        fixed = _serial_run_lines(lean, probes)
-        legacy = _serial_run_lines(lean, probes, args=("--legacy",))
-        for p, g, a, b in zip(probes, gout, fixed, legacy):
+        variants = [("as-written-model", ()), ("F14a-repaired-model", ("--repaired",)), ("pre-F14b-model", ("--legacy",))]
+        outs = [(name, _serial_run_lines(lean, probes, args=args)) for name, args in variants]
+        for n, (p, g) in enumerate(zip(probes, gout)):
             g = strip_tables(g)
             kind = p.split()[0]
-            if g == a:
-                R.count("probe-%s:behaves-as-repaired-model" % kind)
-            elif g == b:
-                R.count("probe-%s:behaves-as-legacy-model(defect present)" % kind)
-            else:
-                R.count("probe-%s:matches-neither-model" % kind)
+            hit = [name for name, o in outs if o[n] == g]
+            R.count("probe-%s:%s" % (kind, "+".join(hit) if hit else "matches-no-model"))
 
 
 SPEC = C14()
